@@ -22,6 +22,7 @@ DISPATCH = {
     "C09": ("harness.props.g1", "run"),
     "C11": ("harness.props.c11", "run"),
     "C14": ("harness.props.c14", "run"),
+    "C15": ("harness.props.c15", "run"),
 }
 
 
